@@ -203,6 +203,46 @@ Fixpoint run_phases_l (locks : list tid) (fuel : nat) (st : store) (p : jprog) :
       else (st1, [ex])
   end.
 
+(* ------------------------------------------------------------------ `jug sleep-until`
+   SleepUntilCommand.run (jug/subcommands/check.py): load; wait until every loaded task has a result
+   (polling, one sleep per poll that fails); if the namespace has __jug__hasbarrier__ load again and
+   wait again; otherwise exit 0.  It is the reload loop with "wait" in the place of "execute": the
+   results come from other workers.  [incs]: what the others add to the store during each sleep
+   (a result that is there already is left as it is).  [None]: still waiting when the script ends. *)
+Fixpoint add_new (inc st : store) : store :=
+  match inc with
+  | [] => st
+  | (k, v) :: r => let st1 := add_new r st in if stored st1 k then st1 else (k, v) :: st1
+  end.
+
+Fixpoint wait_all (ts : list task) (st : store) (incs : list store) : option (store * list store * nat) :=
+  if all_stored st ts then Some (st, incs, 0)
+  else match incs with
+       | [] => None
+       | i :: r => match wait_all ts (add_new i st) r with
+                   | Some (s, r', n) => Some (s, r', S n)
+                   | None => None
+                   end
+       end.
+
+(* result: the store when sleep-until exits, the number of sleeps, the number of loads *)
+Fixpoint sleep_until (fuel : nat) (st : store) (incs : list store) (p : jprog) : option (store * nat * nat) :=
+  match fuel with
+  | O => None
+  | S f =>
+      let l := load st p in
+      match wait_all (l_tasks l) st incs with
+      | None => None
+      | Some (st1, incs1, n) =>
+          if l_hasbarrier l then
+            match sleep_until f st1 incs1 p with
+            | Some (s, n2, k) => Some (s, n + n2, S k)
+            | None => None
+            end
+          else Some (st1, n, 1)
+      end
+  end.
+
 (* ------------------------------------------------------------------ sequential reference semantics
    No store: every Task is evaluated where it is defined, barrier() does nothing, bvalue(a) is the
    value of a, a compound is its builder followed by the value of what the builder returned.
